@@ -454,28 +454,32 @@ def emit_inventory(name, fname, cls):
 
 
 def state_writes(func):
-    """Names of self.<attr> written in a method: .data.copy_(), .copy_(), .data[..] = , lerp_/mul_/add_ on self attrs,
-    register_buffer calls, direct attribute assignment of tensors is not tracked (plain python attrs)."""
+    """Every syntactic site in a method that can mutate a tensor or the module: in-place tensor methods (name ending in `_`)
+    on ANY receiver (aliases of module state included), subscript / attribute assignments, augmented assignments to
+    attributes or subscripts, setattr / register_buffer / load_state_dict / train / eval calls.  The resulting list is
+    pinned by a glue lemma: a new write site anywhere in a forward / decode method breaks the obligation (fail-closed)."""
     writes = set()
+
+    def root(e):
+        return ast.unparse(e)
+
     for n in ast.walk(func):
         if isinstance(n, ast.Call) and isinstance(n.func, ast.Attribute):
             meth = n.func.attr
             if meth.endswith('_') and not meth.startswith('__') and meth not in ('requires_grad_',):
-                base = n.func.value
-                s = ast.unparse(base)
-                m = re.match(r'self\.(\w+)', s)
-                if m:
-                    writes.add(m.group(1) + ':' + meth)
-            if call_name(n) == 'self.register_buffer':
-                writes.add('register_buffer:' + ast.unparse(n.args[0]))
+                writes.add(root(n.func.value) + ':' + meth)
+            if meth in ('train', 'eval', 'load_state_dict', 'register_buffer', 'register_parameter', 'step', 'zero_grad', 'backward') :
+                writes.add(root(n.func.value) + ':' + meth + '()')
+        if isinstance(n, ast.Call) and isinstance(n.func, ast.Name) and n.func.id in ('setattr', 'delattr'):
+            writes.add(n.func.id + ':' + ast.unparse(n.args[0]) if n.args else n.func.id)
         if isinstance(n, (ast.Assign, ast.AugAssign)):
             tgts = n.targets if isinstance(n, ast.Assign) else [n.target]
             for t in tgts:
-                if isinstance(t, ast.Subscript):
-                    s = ast.unparse(t)
-                    m = re.match(r'self\.(\w+)', s)
-                    if m:
-                        writes.add(m.group(1) + ':setitem')
+                for tt in (t.elts if isinstance(t, ast.Tuple) else [t]):
+                    if isinstance(tt, ast.Subscript):
+                        writes.add(root(tt.value) + ':setitem')
+                    elif isinstance(tt, ast.Attribute):
+                        writes.add(root(tt) + ':assign')
     return sorted(writes)
 
 
